@@ -53,24 +53,19 @@ Definition with_lvs (st : lst) (x : list (nat * nat)) : lst :=
 Definition with_qs (st : lst) (x : list (nat * nat)) : lst :=
   mkL (l_act st) (l_peak st) (l_mused st) x (l_next st) (l_decl st) (l_ret st) (l_rf st) (l_lv st) (l_len st) (l_mscr st).
 
-(* get_inactive_register(activate=True) *)
-Definition take (st : lst) : res (nat * lst) :=
-  match first_false (l_act st) 0 with
-  | None => Err EOutOfRegs
-  | Some i =>
-      let a := set_nth (l_act st) i true in
-      Ok (i, with_act st a (Nat.max (l_peak st) (count_true a)))
+(* get_inactive_register(activate=True): the first inactive register; or, for a register named
+   by the program (loop_register=R_k), that register provided it is inactive.  Naming a register
+   that is already active is accepted by the SDK (the loop then counts in a live register: the
+   caller's business); the model rejects it *)
+Definition activate (i : nat) (st : lst) : res (nat * lst) :=
+  let a := set_nth (l_act st) i true in
+  Ok (i, with_act st a (Nat.max (l_peak st) (count_true a))).
+Definition take_at (o : option nat) (st : lst) : res (nat * lst) :=
+  match o with
+  | None => match first_false (l_act st) 0 with None => Err EOutOfRegs | Some i => activate i st end
+  | Some k => match nth_error (l_act st) k with Some false => activate k st | _ => Err EIll end
   end.
-(* a register named by the program (loop_register=R_k): activated unless it already is;
-   the flag says whether this claim has to release it again *)
-Definition claim (k : nat) (st : lst) : res (nat * lst * bool) :=
-  match nth_error (l_act st) k with
-  | None => Err EIll
-  | Some true => Ok (k, st, false)
-  | Some false =>
-      let a := set_nth (l_act st) k true in
-      Ok (k, with_act st a (Nat.max (l_peak st) (count_true a)), true)
-  end.
+Definition take (st : lst) : res (nat * lst) := take_at None st.
 (* remove_active_register *)
 Definition release (i : nat) (st : lst) : lst := with_act st (set_nth (l_act st) i false) (l_peak st).
 
